@@ -320,6 +320,10 @@ def gen_widths(rng, tier):
         one(base_cfg('h264', 'none'), SC4 + SPS_A + SC4 + pps + SC3 + [0x65, 0x88, 0x84])
         hsps = HSPS + [((i * 3) % 200) + 20 for i in range(n - len(HSPS))]
         one(base_cfg('h265', 'none'), SC4 + HVPS + SC4 + hsps + SC4 + HPPS + SC3 + [0x26, 0x01, 0xaf])
+        hvps = HVPS + [((i * 11) % 200) + 20 for i in range(n - len(HVPS))]
+        one(base_cfg('h265', 'none'), SC4 + hvps + SC4 + HSPS + SC4 + HPPS + SC3 + [0x26, 0x01, 0xaf])
+        hpps = HPPS + [((i * 13) % 200) + 20 for i in range(n - len(HPPS))]
+        one(base_cfg('h265', 'none'), SC4 + HVPS + SC4 + HSPS + SC4 + hpps + SC3 + [0x26, 0x01, 0xaf])
     for (w, h) in ((65535, 65535), (65536, 480), (640, 65536)):
         one(base_cfg('h264', 'none', w=w, h=h), video_frame(rng, 'h264', True, 4))
     for ch in (255, 256, 65535):
@@ -946,6 +950,12 @@ def gen_cli(rng, tier):
     out.append({'kind': 'cli', 'cmd': 'info', 'file': [0, 0, 0, 0, 0x66, 0x74, 0x79, 0x70] * 4, 'wellformed': False, 'opts': {'json': True}})
     out.append({'kind': 'cli', 'cmd': 'info', 'file': [0, 0, 0, 1, 0x66, 0x74, 0x79, 0x70] * 40, 'wellformed': False, 'opts': {'json': True}})
     out.append({'kind': 'cli', 'cmd': 'info', 'file': [0xff, 0xff, 0xff, 0xff, 0x66, 0x74, 0x79, 0x70] * 4, 'wellformed': False, 'opts': {'json': True}})
+    # 64-bit "largesize" headers (size field 1): largesize 0, 8, 16, 24, huge; followed by more data
+    for large in ([0] * 8, [0] * 7 + [8], [0] * 7 + [16], [0] * 7 + [24], [0x7f] + [0xff] * 7, [0xff] * 8):
+        for tail in ([], [0, 0, 0, 8, 0x66, 0x72, 0x65, 0x65], [0] * 16):
+            out.append({'kind': 'cli', 'cmd': 'info', 'file': [0, 0, 0, 1, 0x6d, 0x64, 0x61, 0x74] + large + tail, 'wellformed': False, 'opts': {'json': True}})
+            out.append({'kind': 'cli', 'cmd': 'info', 'file': [0, 0, 0, 16, 0x66, 0x74, 0x79, 0x70, 0x69, 0x73, 0x6f, 0x6d, 0, 0, 0, 0, 0, 0, 0, 1, 0x6d, 0x6f, 0x6f, 0x76] + large + tail,
+                        'wellformed': False, 'opts': {'json': True}})
     # validate
     encs = ['hex', 'odd', 'nonhex', 'empty', 'binary', 'missing', 'absent']
     for ve in encs:
